@@ -51,8 +51,8 @@ theorem shockJump_eq (e : Eos ℝ) (p0 r0 g px rx : ℝ) :
         - (RiemannGen.sie e px rx g + px / rx + r0 / rx * (px - p0) / (rx - r0) / 2) := by
   obtain ⟨j, c⟩ := e
   cases j
-  · simp only [shockJump, sie_ig, sie_eq, epv_tree, epv_leaf]; simp
-  · simp only [shockJump, sie_jwl, sieJWL, epv_tree, epv_leaf]; simp
+  · simp only [shockJump, sie_ig, sie_eq, Bridge.Riem.shockJumpIG_eq, Bridge.Riem.jumpForm]; simp
+  · simp only [shockJump, sie_jwl, sieJWL, Bridge.Riem.shockJumpJWL_eq, Bridge.Riem.jumpForm, Bridge.Riem.sieJWL_eq]; simp
 
 /-- the traced right-hand side `drdp_dudp(p, [ρ, u], g, ws, inst)`, both components -/
 def odeR (e : Eos ℝ) (g p r ws : ℝ) : ℝ :=
@@ -68,13 +68,13 @@ def odeU (e : Eos ℝ) (g p r ws : ℝ) : ℝ :=
 theorem odeR_eq (e : Eos ℝ) (g p r ws : ℝ) : odeR e g p r ws = 1 / RiemannGen.soundSpeed e p r g ^ 2 := by
   obtain ⟨j, c⟩ := e
   cases j
-  · simp only [odeR, sound_ig, sound_eq, epv_tree, epv_leaf]; simp
-  · simp only [odeR, sound_jwl, soundJWL, epv_tree, epv_leaf]; simp
+  · simp only [odeR, sound_ig, sound_eq, Bridge.Riem.odeIG_drdp_eq]; simp
+  · simp only [odeR, sound_jwl, soundJWL, Bridge.Riem.odeJWL_drdp_eq, Bridge.Riem.soundJWL_eq]; simp
 theorem odeU_eq (e : Eos ℝ) (g p r ws : ℝ) : odeU e g p r ws = 1 / r / RiemannGen.soundSpeed e p r g * ws := by
   obtain ⟨j, c⟩ := e
   cases j
-  · simp only [odeU, sound_ig, sound_eq, epv_tree, epv_leaf]; simp
-  · simp only [odeU, sound_jwl, soundJWL, epv_tree, epv_leaf]; simp
+  · simp only [odeU, sound_ig, sound_eq, Bridge.Riem.odeIG_dudp_eq]; simp
+  · simp only [odeU, sound_jwl, soundJWL, Bridge.Riem.odeJWL_dudp_eq, Bridge.Riem.soundJWL_eq]; simp
 
 /-! ### shock side -/
 
